@@ -38,6 +38,12 @@ def main(argv):
     seed = int(os.environ.get('VERIF_SEED', '0') or 0)
     jobs = int(os.environ.get('VERIF_JOBS', '0') or 0) or (os.cpu_count() or 4)
     _assert_tree()
+    # replay files of earlier runs of this property are stale once it is run again
+    rdir = os.path.join(os.environ.get('VERIF_REPLAY_DIR') or os.path.join(core.HOME, 'replays'), pid)
+    if os.path.isdir(rdir):
+        for fn in os.listdir(rdir):
+            if fn.endswith('.json'):
+                os.remove(os.path.join(rdir, fn))
     try:
         mod = load(pid)
         total, per_sub, wall, capped = core.run_check(mod, tier, seed, jobs)
